@@ -63,6 +63,10 @@ var (
 
 func genTag(t *rapid.T, cands []string, numKind string) string {
 	name := rapid.SampledFrom(cands).Draw(t, "vname")
+	if name == "required" && len(cands) > 1 && rapid.Bool().Draw(t, "again") {
+		// required rejects every zero value: keep it from dominating the rejections
+		name = rapid.SampledFrom(cands).Draw(t, "vname2")
+	}
 	if name != "min" && name != "max" {
 		return name
 	}
@@ -78,27 +82,28 @@ func genTag(t *rapid.T, cands []string, numKind string) string {
 	return name + "=" + rapid.SampledFrom(pool).Draw(t, "vparam")
 }
 
-// assignTags puts validate tags on fields at any depth of the type.
-func assignTags(t *rapid.T, td *gen.TD) {
+// assignTags puts validate tags on fields at any depth of the type: on one
+// eligible field in odds+1 (collections of non-structs: a third of that).
+func assignTags(t *rapid.T, td *gen.TD, odds int) {
 	switch td.Kind {
 	case "ptr", "slice", "array", "map":
-		assignTags(t, td.Elem)
+		assignTags(t, td.Elem, odds)
 	case "struct":
 		for i := range td.Fields {
 			f := &td.Fields[i]
-			assignTags(t, f.T)
-			if f.Inline || f.Ignore || f.Unexp {
+			assignTags(t, f.T, odds)
+			if f.Inline || f.Ignore || f.Unexp || f.Validate != "" {
 				continue
 			}
 			cands, numKind, soft := tagCandidates(f.T)
 			if len(cands) == 0 {
 				continue
 			}
-			odds := 2 // one field in three
+			o := odds
 			if soft {
-				odds = 7
+				o = 3*odds + 2
 			}
-			if rapid.IntRange(0, odds).Draw(t, "hasv") != 0 {
+			if rapid.IntRange(0, o).Draw(t, "hasv") != 0 {
 				continue
 			}
 			f.Validate = genTag(t, cands, numKind)
@@ -111,6 +116,50 @@ func assignTags(t *rapid.T, td *gen.TD) {
 					f.Validate += sep + second
 				}
 			}
+		}
+	}
+}
+
+// validatedElem draws a small type that carries validators: a catalogue type,
+// a pointer to one, or a struct with one or two taggable fields.
+func validatedElem(t *rapid.T) *gen.TD {
+	switch rapid.IntRange(0, 5).Draw(t, "velem") {
+	case 0, 1, 2:
+		return &gen.TD{Kind: rapid.SampledFrom(catKinds).Draw(t, "catk")}
+	case 3:
+		return &gen.TD{Kind: "ptr", Elem: &gen.TD{Kind: rapid.SampledFrom(catKinds).Draw(t, "catk")}}
+	}
+	st := &gen.TD{Kind: "struct"}
+	n := rapid.IntRange(1, 2).Draw(t, "nf")
+	for i := 0; i < n; i++ {
+		k := rapid.SampledFrom([]string{"int", "int8", "uint16", "float64", "string", "dur", "named:int"}).Draw(t, "ek")
+		ft := &gen.TD{Kind: k}
+		if rapid.IntRange(0, 3).Draw(t, "eptr") == 0 {
+			ft = &gen.TD{Kind: "ptr", Elem: ft}
+		}
+		st.Fields = append(st.Fields, gen.FD{Name: fmt.Sprintf("F%d", i), Tag: fmt.Sprintf("e%d", i), T: ft})
+	}
+	if rapid.IntRange(0, 3).Draw(t, "sptr") == 0 {
+		return &gen.TD{Kind: "ptr", Elem: st}
+	}
+	return st
+}
+
+// enrich replaces the primitive element type of some collections by a type
+// that carries validators, so that validators inside collections are common.
+func enrich(t *rapid.T, td *gen.TD) {
+	switch td.Kind {
+	case "ptr":
+		enrich(t, td.Elem)
+	case "slice", "array", "map":
+		if td.Elem.IsLeaf() && rapid.IntRange(0, 1).Draw(t, "enrich") == 0 {
+			td.Elem = validatedElem(t)
+			return
+		}
+		enrich(t, td.Elem)
+	case "struct":
+		for i := range td.Fields {
+			enrich(t, td.Fields[i].T)
 		}
 	}
 }
@@ -269,7 +318,17 @@ func genCase(t *rapid.T) Case {
 	c := Case{VarExp: rapid.IntRange(0, 2).Draw(t, "varexp") == 0}
 	cfg := tdCfg()
 	c.T = gen.GenStructTD(t, cfg, runlog.Pick(3, 4))
-	assignTags(t, c.T)
+	enrich(t, c.T)
+	assignTags(t, c.T, 2)
+	if !hasValidators(c.T) {
+		assignTags(t, c.T, 0)
+	}
+	if !hasValidators(c.T) {
+		// nothing in the type can carry a validator (booleans only): add a field that can
+		f := gen.FD{Name: "FV", Tag: "fv", T: validatedElem(t)}
+		c.T.Fields = append(c.T.Fields, f)
+		assignTags(t, c.T, 0)
+	}
 	if rapid.IntRange(0, 5).Draw(t, "zero") != 0 {
 		c.Pre = gen.GenTV(t, cfg, c.T, false)
 	}
